@@ -459,7 +459,16 @@ def _native(case):
         if bool(wider.test("Value")) is not True or bool(narrower.test("Value")) is not False:
             return ["derived predicates have the wrong value"]
         return []
-    K = case["K"]
+    if not case.get("_shifted"):
+        # names and attribute values are also tried as large integers built afresh for every use (equal but not identical objects:
+        # CPython shares small ints, so a comparison by identity instead of equality is invisible on the values 0, 1, 2 ...)
+        bad0 = _native(dict(case, _shifted=1))
+        if bad0 or case["entry"] not in ("select", "find"):       # with [] an integer is an index, not a name
+            return bad0
+        big = lambda v: int(str(v + 100000)) if isinstance(v, int) and not isinstance(v, bool) else v  # noqa
+        shifted = dict(case, _shifted=2, K=[big(k) for k in case["K"]], names=[big(v) for v in case["names"]], attrs=[[big(a) for a in at] for at in case["attrs"]])
+        return _native(shifted)
+    K = case["K"] if case["_shifted"] == 1 else [int(str(k)) for k in case["K"]]       # (fresh objects once more for the query side)
     top, nodes, tops = build_tree(case["shape"], case["names"], case["attrs"], case["combiner"])
     qs = [build_level(l, K) for l in case["levels"]]
     if case["entry"] == "select":
